@@ -106,12 +106,25 @@ theorem shelley_ma_roundtrip (L : Leaf N) (hL : L.Lawful) (m : Metadata) (ns : L
     decShelleyMa L (itemShelleyMa L ⟨m, some ns⟩) = .ok ⟨canonSortInt m, some ns⟩ :=
   decShelleyMa_item_some L hL m ns h
 
-/-- **`ShelleyMarryMetadata(metadata)`** — `native_scripts` left at its default `None` — is written `[metadata, null]` and
-decoding that raises (`TypeError`: the hook iterates `None`), as a class and through `AuxiliaryData` -/
-theorem shelley_ma_none_crashes (L : Leaf N) (m : Metadata) (h : MetaOk m) :
+/-- **`ShelleyMarryMetadata(metadata)`** — `native_scripts` not given: `__post_init__` makes it the empty list, which is
+written `[metadata, []]` and decodes to the constructed object -/
+theorem shelley_ma_default_roundtrip (L : Leaf N) (hL : L.Lawful) (m : Metadata) (h : MetaOk m) :
+    normShelleyMa ⟨m, Option.none⟩ = (⟨m, some []⟩ : ShelleyMa N) ∧
+    itemShelleyMa L (normShelleyMa ⟨m, Option.none⟩) = .array [itemMetadata m, .array []] ∧
+    decShelleyMa L (itemShelleyMa L (normShelleyMa ⟨m, Option.none⟩)) = .ok ⟨canonSortInt m, some []⟩ :=
+  ⟨rfl, rfl, decShelleyMa_item_some L hL m [] h⟩
+
+/-- the one-item array `[metadata]` (never written by the library) is accepted: the constructor fills in the empty list -/
+theorem shelley_ma_one_item_decodes (L : Leaf N) (m : Metadata) (h : MetaOk m) :
+    decShelleyMa L (.array [itemMetadata m]) = .ok ⟨canonSortInt m, some []⟩ := decShelleyMa_one_item L m h
+
+/-- a FOREIGN `[metadata, null]` — which is also what an object whose `native_scripts` was set to `None` AFTER construction
+writes — still raises (`TypeError`: the hook iterates `None`), as a class and through `AuxiliaryData`; no constructed or
+decoded object reaches this (`aux_norm_constructed`, `aux_decoded_constructed`) -/
+theorem shelley_ma_foreign_null_crashes (L : Leaf N) (m : Metadata) (h : MetaOk m) :
     itemShelleyMa L ⟨m, Option.none⟩ = .array [itemMetadata m, .simple 22] ∧
-    decShelleyMa L (itemShelleyMa L ⟨m, Option.none⟩) = .crash ∧
-    decAux L (itemAux L (.shelleyMa ⟨m, Option.none⟩)) = .crash :=
+    decShelleyMa L (.array [itemMetadata m, .simple 22]) = .crash ∧
+    decAux L (.array [itemMetadata m, .simple 22]) = .crash :=
   ⟨rfl, decShelleyMa_item_none L m h, decAux_shelleyMa_none L m h⟩
 
 /-- **`AlonzoMetadata`** with EVERY subset of its five optional fields (the structure quantifies over all 32) -/
@@ -131,31 +144,32 @@ theorem alonzo_shape (L : Leaf N) (a : Alonzo N) :
 
 /-! ## `AuxiliaryData` -/
 
-/-- the full statement: every auxiliary data object (distinct labels, no foreign leaves) decodes to itself -/
-def aux_roundtrip_goal : Prop :=
-  ∀ (L : Leaf Nat), L.Lawful → ∀ a : Aux Nat, AuxOk a → decAux L (itemAux L a) = .ok (canonAux a)
+/-- **decode ∘ encode, FULL** — for EVERY auxiliary data object the constructors can be asked for (`normAux a`: what they
+make of their arguments; `AuxOk`: distinct labels, no foreign leaves): the three eras, every subset of the Alonzo fields, the
+Shelley-MA form with or without a script list.  The result is the constructed object with every label map in canonical order -/
+theorem aux_roundtrip (L : Leaf N) (hL : L.Lawful) (a : Aux N) (h : AuxOk a) :
+    decAux L (itemAux L (normAux a)) = .ok (canonAux (normAux a)) := decAux_itemAux_norm L hL a h
 
-/-- **decode ∘ encode** for the three forms, the Shelley-MA form holding a script list: the same form with every label
-map in canonical order -/
-theorem aux_roundtrip_partial (L : Leaf N) (hL : L.Lawful) (a : Aux N) (h : AuxOk a) (hs : ScriptsPresent a) :
-    decAux L (itemAux L a) = .ok (canonAux a) := decAux_itemAux L hL a h hs
+/-- … the same for any object that IS constructed (the Shelley-MA form holds a list) -/
+theorem aux_roundtrip_constructed (L : Leaf N) (hL : L.Lawful) (a : Aux N) (h : AuxOk a) (hc : Constructed a) :
+    decAux L (itemAux L a) = .ok (canonAux a) := decAux_itemAux L hL a h hc
+
+/-- the constructor's normalisation is idempotent, its results are constructed objects and fixed points, and so is what the
+decoder returns -/
+theorem aux_norm_idempotent (a : Aux N) : normAux (normAux a) = normAux a := normAux_idem a
+theorem aux_norm_constructed (a : Aux N) : Constructed (normAux a) := constructed_normAux a
+theorem aux_norm_fixed (a : Aux N) (h : Constructed a) : normAux a = a := normAux_of_constructed a h
+theorem aux_decoded_constructed (a : Aux N) : Constructed (canonAux (normAux a)) :=
+  constructed_canonAux _ (constructed_normAux a)
 
 /-- a lawful leaf for the examples: a native script is a natural number -/
 def natLeaf : Leaf Nat := ⟨fun n => .uint n, fun i => match i with | .uint n => .ok n | _ => .deser⟩
 theorem natLeaf_lawful : natLeaf.Lawful := ⟨fun _ => rfl⟩
 
-/-- FALSE of the code as it is: `AuxiliaryData(ShelleyMarryMetadata(Metadata()))` cannot be decoded -/
-theorem aux_roundtrip_counterexample : ¬ aux_roundtrip_goal := by
-  intro h
-  have h1 := h natLeaf natLeaf_lawful (.shelleyMa ⟨[], Option.none⟩) ⟨by simp [labels], by simp⟩
-  have h2 := decAux_shelleyMa_none natLeaf [] ⟨by simp [labels], by simp⟩
-  rw [h2] at h1
-  cases h1
-
 /-- … at the byte level -/
-theorem aux_roundtrip_bytes (L : Leaf N) (hL : L.Lawful) (a : Aux N) (h : AuxOk a) (hs : ScriptsPresent a)
-    (hw : Cbor.WF (itemAux L a)) : decAuxBytes L (encAux L a) = .ok (canonAux a) := by
-  simp only [decAuxBytes, encAux, decodeAll_encode _ hw, aux_roundtrip_partial L hL a h hs]
+theorem aux_roundtrip_bytes (L : Leaf N) (hL : L.Lawful) (a : Aux N) (h : AuxOk a)
+    (hw : Cbor.WF (itemAux L (normAux a))) : decAuxBytes L (encAux L (normAux a)) = .ok (canonAux (normAux a)) := by
+  simp only [decAuxBytes, encAux, decodeAll_encode _ hw, aux_roundtrip L hL a h]
 
 /-- **the dispatch is unambiguous**: on the image of the encoder each of the three decoders refuses
 (`DeserializeException`) the forms of the other two eras, so the order in which `AuxiliaryData.from_primitive` tries them
@@ -166,15 +180,15 @@ theorem aux_dispatch_exclusive (L : Leaf N) (m : Metadata) (s : ShelleyMa N) (a 
     decMetadata (itemShelleyMa L s) = .deser ∧ decMetadata (itemAlonzo L a) = .deser :=
   ⟨rfl, rfl, rfl, rfl, rfl, rfl⟩
 
-theorem aux_decodes_as_itself (L : Leaf N) (hL : L.Lawful) (a : Aux N) (h : AuxOk a) (hs : ScriptsPresent a) :
-    ∃ a', decAux L (itemAux L a) = .ok a' ∧
+theorem aux_decodes_as_itself (L : Leaf N) (hL : L.Lawful) (a : Aux N) (h : AuxOk a) :
+    ∃ a', decAux L (itemAux L (normAux a)) = .ok a' ∧
       (match a, a' with
         | .shelley _, .shelley _ => True
         | .shelleyMa _, .shelleyMa _ => True
         | .alonzo _, .alonzo _ => True
         | _, _ => False) := by
-  refine ⟨canonAux a, aux_roundtrip_partial L hL a h hs, ?_⟩
-  cases a <;> simp [canonAux]
+  refine ⟨canonAux (normAux a), aux_roundtrip L hL a h, ?_⟩
+  cases a <;> simp [canonAux, normAux]
 
 /-- **re-encoding the decoded object gives the same item** — for EVERY auxiliary data object -/
 theorem aux_reencode (L : Leaf N) (a : Aux N) : encAux L (canonAux a) = encAux L a := by
@@ -185,14 +199,12 @@ theorem aux_order_independent (L : Leaf N) (a₁ a₂ : Aux N) (h : AuxOk a₁) 
     encAux L a₁ = encAux L a₂ := by
   simp only [encAux, itemAux_perm L a₁ a₂ h hw hp]
 
-/-- the last field of a `Transaction` (`Optional[AuxiliaryData]`): `None` and every decodable object survive -/
-theorem opt_aux_roundtrip (L : Leaf N) (hL : L.Lawful) (o : Option (Aux N)) (h : ∀ a, o = some a → AuxOk a ∧ ScriptsPresent a) :
-    decOptAux L (itemOptAux L o) = .ok (o.map canonAux) := by
+/-- the last field of a `Transaction` (`Optional[AuxiliaryData]`): `None` and every constructible object survive -/
+theorem opt_aux_roundtrip (L : Leaf N) (hL : L.Lawful) (o : Option (Aux N)) (h : ∀ a, o = some a → AuxOk a) :
+    decOptAux L (itemOptAux L (o.map normAux)) = .ok (o.map (fun a => canonAux (normAux a))) := by
   cases o with
   | none => rfl
-  | some a =>
-    obtain ⟨h1, h2⟩ := h a rfl
-    simp [itemOptAux, decOptAux, aux_roundtrip_partial L hL a h1 h2]
+  | some a => simp [itemOptAux, decOptAux, aux_roundtrip L hL a (h a rfl)]
 
 /-! ## non-vacuity -/
 
@@ -231,20 +243,23 @@ example :
 
 def exAlonzo : Alonzo Nat := { metadata := some exMeta, native := some [3, 4], v2 := some [[1, 2, 3], []], v3 := some [] }
 def exAuxes : List (Aux Nat) :=
-  [.shelley exMeta, .shelleyMa ⟨exMeta, some [7]⟩, .shelleyMa ⟨[], some []⟩, .alonzo exAlonzo, .alonzo {},
-   .alonzo { v1 := some [[9]] }]
+  [.shelley exMeta, .shelleyMa ⟨exMeta, some [7]⟩, .shelleyMa ⟨[], some []⟩, .shelleyMa ⟨exMeta, Option.none⟩,
+   .alonzo exAlonzo, .alonzo {}, .alonzo { v1 := some [[9]] }]
 
 example : exAuxes.all auxOkB = true := by decide +kernel
 example :
-    exAuxes.all (fun a => match decAuxBytes natLeaf (encAux natLeaf a) with
-      | .ok a' => encAux natLeaf a' == encAux natLeaf a &&
+    exAuxes.all (fun a => match decAuxBytes natLeaf (encAux natLeaf (normAux a)) with
+      | .ok a' => encAux natLeaf a' == encAux natLeaf (normAux a) && constructedB a' &&
           (match a, a' with
             | .shelley _, .shelley _ => true | .shelleyMa _, .shelleyMa _ => true | .alonzo _, .alonzo _ => true
             | _, _ => false)
       | _ => false) = true := by decide +kernel
--- the counterexample on bytes: `82 a0 f6`
-example : encAux natLeaf (.shelleyMa ⟨[], Option.none⟩) = [0x82, 0xa0, 0xf6] ∧
-    (match decAuxBytes natLeaf [0x82, 0xa0, 0xf6] with | .crash => true | _ => false) = true := by decide +kernel
+-- the former counterexample (KF repaired by 68fc5c3), as a regression example: `ShelleyMarryMetadata(Metadata())` is `82 a0 80`
+example : encAux natLeaf (normAux (.shelleyMa ⟨[], Option.none⟩)) = [0x82, 0xa0, 0x80] := by decide +kernel
+-- the foreign stream `82 a0 f6` (null where the list is prescribed) still raises, `81 a0` is completed by the constructor
+example : (match decAuxBytes natLeaf [0x82, 0xa0, 0xf6] with | .crash => true | _ => false) = true ∧
+    (match decAuxBytes natLeaf [0x81, 0xa0] with | .ok (.shelleyMa ⟨[], some []⟩) => true | _ => false) = true := by
+  decide +kernel
 -- the empty-metadata / empty-list stream `82 a0 80` is the Shelley-MA form, not a label map
 example : (match decAuxBytes natLeaf [0x82, 0xa0, 0x80] with | .ok (.shelleyMa ⟨[], some []⟩) => true | _ => false) = true := by
   decide +kernel
@@ -270,12 +285,18 @@ end Pyc.C01.Metadata
 #print axioms Pyc.C01.Metadata.metadata_order_independent_64
 #print axioms Pyc.C01.Metadata.metadata_sorted
 #print axioms Pyc.C01.Metadata.shelley_ma_roundtrip
-#print axioms Pyc.C01.Metadata.shelley_ma_none_crashes
+#print axioms Pyc.C01.Metadata.shelley_ma_default_roundtrip
+#print axioms Pyc.C01.Metadata.shelley_ma_one_item_decodes
+#print axioms Pyc.C01.Metadata.shelley_ma_foreign_null_crashes
 #print axioms Pyc.C01.Metadata.alonzo_roundtrip
 #print axioms Pyc.C01.Metadata.alonzo_shape
-#print axioms Pyc.C01.Metadata.aux_roundtrip_partial
+#print axioms Pyc.C01.Metadata.aux_roundtrip
+#print axioms Pyc.C01.Metadata.aux_roundtrip_constructed
+#print axioms Pyc.C01.Metadata.aux_norm_idempotent
+#print axioms Pyc.C01.Metadata.aux_norm_constructed
+#print axioms Pyc.C01.Metadata.aux_norm_fixed
+#print axioms Pyc.C01.Metadata.aux_decoded_constructed
 #print axioms Pyc.C01.Metadata.natLeaf_lawful
-#print axioms Pyc.C01.Metadata.aux_roundtrip_counterexample
 #print axioms Pyc.C01.Metadata.aux_roundtrip_bytes
 #print axioms Pyc.C01.Metadata.aux_dispatch_exclusive
 #print axioms Pyc.C01.Metadata.aux_decodes_as_itself
